@@ -111,6 +111,14 @@ func (h *invocationResponseHandler) ServeHTTP(writer http.ResponseWriter, reques
 			return
 
 		case *interop.ErrTruncatedResponse:
+			// in the buffered case nothing has reached the invoker: hand it a platform error instead of an empty success
+			// (in DirectInvoke case the truncated response is already sent back to the caller and this is refused)
+			_ = server.SendErrorResponse(invokeID, &interop.ErrorInvokeResponse{
+				Headers:       interop.InvokeResponseHeaders{ContentType: request.Header.Get(contentTypeHeader)},
+				FunctionError: interop.FunctionError{Type: fatalerror.TruncatedResponse},
+				Payload:       []byte{},
+			})
+
 			if err := runtime.ResponseSent(); err != nil {
 				log.Panic(err)
 			}
